@@ -1392,7 +1392,9 @@ mzd_t *mzd_concat(mzd_t *C, mzd_t const *A, mzd_t const *B) {
   for (rci_t i = 0; i < A->nrows; ++i) {
     word *dst_truerow = mzd_row(C, i);
     word const *src_truerow = mzd_row_const(A, i);
-    for (wi_t j = 0; j < A->width; ++j) { dst_truerow[j] = src_truerow[j]; }
+    for (wi_t j = 0; j < A->width - 1; ++j) { dst_truerow[j] = src_truerow[j]; }
+    dst_truerow[A->width - 1] = (dst_truerow[A->width - 1] & ~A->high_bitmask) |
+                                (src_truerow[A->width - 1] & A->high_bitmask);
   }
 
   for (rci_t i = 0; i < B->nrows; ++i) {
@@ -1419,13 +1421,17 @@ mzd_t *mzd_stack(mzd_t *C, mzd_t const *A, mzd_t const *B) {
   for (rci_t i = 0; i < A->nrows; ++i) {
     word const *src_truerow = mzd_row_const(A, i);
     word *dst_truerow = mzd_row(C, i);
-    for (wi_t j = 0; j < A->width; ++j) { dst_truerow[j] = src_truerow[j]; }
+    for (wi_t j = 0; j < A->width - 1; ++j) { dst_truerow[j] = src_truerow[j]; }
+    dst_truerow[A->width - 1] = (dst_truerow[A->width - 1] & ~A->high_bitmask) |
+                                (src_truerow[A->width - 1] & A->high_bitmask);
   }
 
   for (rci_t i = 0; i < B->nrows; ++i) {
     word *dst_truerow = mzd_row(C, A->nrows + i);
     word const *src_truerow = mzd_row_const(B, i);
-    for (wi_t j = 0; j < B->width; ++j) { dst_truerow[j] = src_truerow[j]; }
+    for (wi_t j = 0; j < B->width - 1; ++j) { dst_truerow[j] = src_truerow[j]; }
+    dst_truerow[B->width - 1] = (dst_truerow[B->width - 1] & ~B->high_bitmask) |
+                                (src_truerow[B->width - 1] & B->high_bitmask);
   }
 
   __M4RI_DD_MZD(C);
